@@ -37,6 +37,7 @@ struct Ref {
 
 static std::vector<std::vector<std::string>> g_calls;   // argv of every probe invocation
 
+static std::string g_enter = "\r\n";     // byte encoding of the Enter key in this run: CR LF, bare CR, bare LF or CR NUL (all four are accepted by the scanner)
 static std::string g_mode; static int g_prefill = 0; static size_t g_depth = 6; static uint32_t g_options = 0; static bool g_quiet = false;
 static Terminal *g_term = nullptr; static Worker g_worker;
 
@@ -61,7 +62,7 @@ static std::string replay(const std::vector<int> &h, std::string &viol) {
     auto step = [&](int k) -> bool {
       c.out.clear(); g_calls.clear();
       bool r;
-      try { r = term.onRecvString(st, ENC[k]); } catch (const std::exception &e) { viol = std::string("editor-key-") + KN[k] + "-" + ref.where() + "-uncaught-exception what=" + e.what(); g_worker.poisoned = true; return false; }
+      try { r = term.onRecvString(st, k == ENTER ? g_enter : std::string(ENC[k])); } catch (const std::exception &e) { viol = std::string("editor-key-") + KN[k] + "-" + ref.where() + "-uncaught-exception what=" + e.what(); g_worker.poisoned = true; return false; }
       bool is_enter = ref.key(k, executed);
       if (!r) { viol = "key-rejected-by-live-session"; return false; }
       if (is_enter) {
@@ -110,6 +111,7 @@ int main(int argc, char **argv) {
   signal(SIGPIPE, SIG_IGN);
   bool one = argc > 5 && std::string(argv[1]) == "--one"; int o = one ? 1 : 0;
   g_mode = argc > 1 + o ? argv[1 + o] : "echo"; g_depth = argc > 2 + o ? atoi(argv[2 + o]) : 6; g_prefill = argc > 3 + o ? atoi(argv[3 + o]) : 0;
+  { std::string e = getenv("C13_ENTER") ? getenv("C13_ENTER") : "crlf"; g_enter = e == "cr" ? std::string("\r") : e == "lf" ? std::string("\n") : e == "crnul" ? std::string("\r\0", 2) : std::string("\r\n"); }
   g_options = g_mode == "echo" ? TerminalInteract::kEnableEcho : g_mode == "quiet" ? TerminalInteract::kQuietMode : 0; g_quiet = g_mode == "quiet";
   if (one) { std::vector<int> h; for (const char *p = argv[5]; *p; p++) h.push_back(*p - 'A'); std::string v; replay(h, v); fprintf(stderr, "viol=%s\n", v.c_str()); return 0; }
   size_t depth = g_depth;
